@@ -146,6 +146,8 @@ _FUNCS = {
     'divt': lambda k: (lambda i: (i // k,)),
     'divs': lambda k: (lambda i: str(i // k)),
     'divbig': lambda k: (lambda i: 10 ** 12 + i // k),
+    'divhuge': lambda k: (lambda i: 2 ** 53 + i // k),         # consecutive ints that round to the same double
+    'divf': lambda k: (lambda i: (i // k) * 1.5),
     'divpar': lambda k: (lambda i: (i // k) % 2),
     'digpar': lambda k: (lambda x: (digest(x) // k) % 2),
 }
@@ -301,7 +303,7 @@ def out_type(node, t):
 
 
 INT_FUNCS = {'add', 'mul', 'mod', 'div', 'neg', 'pair', 'pairmod', 'rep', 'upto', 'opt', 'half', 'tofloat', 'nt', 'even', 'odd',
-             'modeq', 'modne', 'modtruthy', 'kt', 'ks', 'kbig', 'kf', 'kmix', 'kneg', 'kmers', 'ktneg', 'divt', 'divs', 'divbig', 'divpar'}
+             'modeq', 'modne', 'modtruthy', 'kt', 'ks', 'kbig', 'kf', 'kmix', 'kneg', 'kmers', 'ktneg', 'divt', 'divs', 'divbig', 'divhuge', 'divf', 'divpar'}
 NUM_FUNCS = {'gt', 'lt', 'trunc', 'scale10'}
 ANY_FUNCS = {'id', 'digest', 'dgt', 'true', 'false', 'kdig', 'digpar'}
 TYPED_FUNCS = {'t0': 't', 't1': 't', 'tsum': 't', 'len': 'l', 'lsum': 'l', 'isnone': 'o', 'ntsum': 'n'}
